@@ -458,6 +458,12 @@ fn random_local(rng: &mut Rng) -> i128 {
         0 => *rng.pick(&special_locals()),
         1 => rng.range(0, 70_000) as i128 * MS + rng.below(1_000_000) as i128, // first minute after the epoch
         2 => -(rng.range(0, 70_000) as i128 * MS) - rng.below(1_000_000) as i128, // just before it
+        3 if rng.chance(1, 2) => {
+            // just around a random multiple of a power of two (in ms)
+            let k = rng.range(8, 46) as u32;
+            let m = 1 + rng.below(((hi.div_euclid(MS)) >> k).max(1) as u64) as i128;
+            ((m << k) + rng.range(0, 6_000) as i128 - 3_000) * MS + rng.below(1_000_000) as i128
+        }
         3 => T0_MS * MS + rng.below(1u64 << 50) as i128,
         4 => hi - rng.below(1u64 << 40) as i128,
         5 => lo + rng.below(1u64 << 40) as i128,
@@ -510,6 +516,33 @@ impl Family for VTimeFamily {
                 }
             }
             cases.push(ops);
+        }
+        // Power-of-two boundaries of the millisecond timestamps: an in-window (local, base) pair
+        // that straddles m * 2^k ms (local just above and base just below, and the other way
+        // round), plus the same pairs pushed just outside the window.  Nothing in the property
+        // depends on where in the 64-bit range the pair sits, so every verdict must be the one the
+        // signed difference gives; "cheap" bit tricks (xor / shift pre-filters, truncating casts)
+        // differ exactly on such pairs.
+        let max_l = max_ns().div_euclid(MS);
+        for k in 8u32..=62 {
+            let mut ops = Vec::new();
+            for m in [1i128, 2, 3, 5, 7] {
+                let b = m << k;
+                if b - 60_000 < 0 || b + 60_000 > max_l {
+                    continue;
+                }
+                for (l, base) in [
+                    (b + 500, b - 1_000), (b, b - 1), (b + 2_989, b - 1), (b + 2_990, b - 1),      // local ahead of base
+                    (b - 1_000, b + 500), (b - 1, b), (b - 59_899, b), (b - 59_900, b + 1),         // local behind base
+                    (b + 1, b + 1), (b - 1, b - 1),
+                ] {
+                    let base = base as u64;
+                    ops.push(format!("new {} {} {}", l * MS + 123_456, base, bits_of(p.nfs.vouch(base))));
+                }
+            }
+            if !ops.is_empty() {
+                cases.push(ops);
+            }
         }
         let mut ops = Vec::new();
         for d in [-2992i64, -2991, -2990, -2989, -100, 0, 100, 59_800, 59_899, 59_900, 59_901, 59_902] {
